@@ -28,6 +28,10 @@ def run(ctx, rep):
         check_zero(crate, rep, cfg)
         check_len_agreement(crate, rep, cfg)
         check_clamp_bounds(crate, rep, cfg)
+        # what `x[i]` / `x[a:b:c]` select is decided by Value::get_item / Value::slice alone: the VM arms add no route of their own
+        # (shared with C02)
+        from props import c02
+        c02.check_lookup(crate, rep, cfg)
 
 
 def is_char_index_call(name):
